@@ -376,6 +376,39 @@ def k_swap_rows(recv):
                   replay=("b_swap_rows", recv))
 
 
+# ---- C14: copy_within accepts exactly the rectangles that fit -------------------------------------
+
+def k_copy_within(recv):
+    def find(fns):
+        return [n for n in fns if n == "CopyOps::copy_within" or n.endswith("::CopyOps::copy_within")]
+
+    def build(ctx):
+        r, d = owned(ctx) if recv == "owned" else view(ctx, "TooDeeViewMut")
+        tl, a, b = coord(ctx, "tl_c", "tl_r")
+        br, c, e = coord(ctx, "br_c", "br_r")
+        ds, f, g = coord(ctx, "dest_c", "dest_r")
+        d.update(tlc=a, tlr=b, brc=c, brr=e, dc=f, dr=g)
+        return [r, Tup([tl, br]), ds], d
+
+    def post(kind, events, value, d):
+        C, R = d["C"], d["R"]
+        fits = (f"(and (<= {d['tlc']} {d['brc']}) (<= {d['tlr']} {d['brr']}) (<= {d['brc']} {C}) (<= {d['brr']} {R}) "
+                f"(<= (+ {d['dc']} (- {d['brc']} {d['tlc']})) {C}) (<= (+ {d['dr']} (- {d['brr']} {d['tlr']})) {R}))")
+        if kind == "return":
+            # returning normally needs rectangles that fit (a call that panics after copying some rows is not
+            # excluded by the property, so paths cut after one loop iteration are only checked for UB)
+            return f"(and {fits} {no_ub(events)})"
+        if kind == "cut":
+            return no_ub(events)
+        return "true"  # panics are judged by Engine A (a fitting call must not panic)
+
+    k = Kernel(f"copy_within_{recv}", "C14", find, build, post,
+               f"copy_within on {recv}: a call whose source or destination rectangle does not fit (as mathematical integers) never returns normally",
+               replay=("b_copy_within", recv))
+    k.unroll = 1  # one full loop iteration, then cut
+    return k
+
+
 # ---- C03: view window computation ----------------------------------------------------------------
 
 def k_view_dims(parent):
@@ -581,6 +614,8 @@ def all_kernels():
     ks.append(k_view_dims("view"))
     for w in ("new", "init", "from_vec", "view_new", "viewmut_new"):
         ks.append(k_ctor(w))
+    ks.append(k_copy_within("owned"))
+    ks.append(k_copy_within("viewmut"))
     ks.append(k_swap_rows("owned"))
     ks.append(k_swap_rows("viewmut"))
     for recv in ("owned", "view", "viewmut"):
